@@ -138,6 +138,7 @@ def corr_cpow(run, zs, Ms):
 def corr_d(run, configs, betas, poison=0.0):
     import spherical
     b = Batch(run, "fill-d")
+    b2 = Batch(run, "fill-d-generated-kernels")
     for (L, ellmin) in configs:
         w = spherical.Wigner(L, ellmin)
         for lab, z in betas:
@@ -145,7 +146,8 @@ def corr_d(run, configs, betas, poison=0.0):
             ws[:] = poison
             d = w.d(complex(z), workspace=ws)
             b.add(f"dfull {L} {ellmin} {fbits(z.real)} {fbits(z.imag)} {fbits(poison)}", arr_bits(d), {"L": L, "ell_min": ellmin, "expibeta": [z.real, z.imag], "stratum": lab}, lab)
-    return b.flush()
+            b2.add(f"gendfull {L} {ellmin} {fbits(z.real)} {fbits(z.imag)} {fbits(poison)}", arr_bits(d), {"L": L, "ell_min": ellmin, "expibeta": [z.real, z.imag], "stratum": lab, "model": "generated"}, lab)
+    return b.flush() + b2.flush()
 
 
 def corr_D(run, configs, rotors, preps, poison=0.0):
@@ -153,6 +155,7 @@ def corr_D(run, configs, rotors, preps, poison=0.0):
     import quaternionic
     h = helpers()
     b = Batch(run, "fill-D")
+    b2 = Batch(run, "fill-D-generated-kernels")
     for (L, ellmin) in configs:
         w = spherical.Wigner(L, ellmin)
         for lab, R in rotors:
@@ -164,7 +167,9 @@ def corr_D(run, configs, rotors, preps, poison=0.0):
             D = w.D(quaternionic.array(R), workspace=ws)
             b.add(f"Dfull {L} {ellmin} {' '.join(fbits(x) for x in R)} {fbits(h['imsqrt'](p['za_rot']))} {fbits(h['imsqrt'](p['zg_rot']))} {fbits(poison)}",
                   arr_bits(D), {"L": L, "ell_min": ellmin, "R": R, "stratum": lab}, lab)
-    return b.flush()
+            b2.add(f"genDfull {L} {ellmin} {' '.join(fbits(x) for x in R)} {fbits(h['imsqrt'](p['za_rot']))} {fbits(h['imsqrt'](p['zg_rot']))} {fbits(poison)}",
+                   arr_bits(D), {"L": L, "ell_min": ellmin, "R": R, "stratum": lab, "model": "generated"}, lab)
+    return b.flush() + b2.flush()
 
 
 def corr_Y(run, configs, rotors, preps, spins=None, poison=0.0):
@@ -173,6 +178,7 @@ def corr_Y(run, configs, rotors, preps, spins=None, poison=0.0):
     import quaternionic
     h = helpers()
     b = Batch(run, "fill-sYlm")
+    b2 = Batch(run, "fill-sYlm-generated-kernels")
     for (L, P, ellmin) in configs:
         w = spherical.Wigner(L, ellmin, mp_max=P)
         for lab, R in rotors:
@@ -188,7 +194,9 @@ def corr_Y(run, configs, rotors, preps, spins=None, poison=0.0):
                 pw = np.complex128(p["z"][2]) ** abs(s)   # evaluated by numpy in Wigner.sYlm (not jitted)
                 b.add(f"Y {L} {w.mp_max} {ellmin} {s} {' '.join(fbits(x) for x in R)} {fbits(h['imsqrt'](p['za_rot']))} {fbits(pw.real)} {fbits(pw.imag)} {fbits(poison)}",
                       arr_bits(Y), {"L": L, "P": P, "ell_min": ellmin, "s": s, "R": R, "stratum": lab}, f"{lab}|s|={abs(s)}" if abs(s) >= 3 else lab)
-    return b.flush()
+                b2.add(f"genY {L} {w.mp_max} {ellmin} {s} {' '.join(fbits(x) for x in R)} {fbits(h['imsqrt'](p['za_rot']))} {fbits(pw.real)} {fbits(pw.imag)} {fbits(poison)}",
+                       arr_bits(Y), {"L": L, "P": P, "ell_min": ellmin, "s": s, "R": R, "stratum": lab, "model": "generated"}, f"{lab}|s|={abs(s)}" if abs(s) >= 3 else lab)
+    return b.flush() + b2.flush()
 
 
 def cx_tokens(a):
